@@ -6,7 +6,8 @@ from ..unitlib import finalize_units, mc_or_die, run_unit_cases, seqify, tlc_cas
 
 TOL = [1, 2048]
 CATEGORY = ["codes2", "codes3", "codes1", "floats", "bools", "gap", "permuted", "dup", "from1", "negative", "half", "nonnum",
-            "missing", "plain", "instance", "classvar_valid", "classvar_invalid", "initvar_trailing"]
+            "missing", "plain", "instance", "classvar_valid", "classvar_invalid", "initvar_trailing",
+            "codes4", "codes5", "half_in", "frac_in", "nan_in", "swap_in", "dup_in", "skip_in", "inf_end"]
 EITHER = {"instance"}      # a dataclass *instance*: the wording of the property does not decide it
 
 
